@@ -46,6 +46,26 @@ func IdRun(run int, sc IdScenario) IdResult {
 	defer cancel()
 	tr := tracing.NewTracer(ctx)
 	add(IdRec{Ev: "init"})
+	// sweep mode (no per-draw record): every goroutine keeps what it drew to itself, nothing is
+	// shared while drawing (a lock here would serialise the goroutines and hide races inside the
+	// generator); distinctness is established afterwards
+	var locals [][]string
+	var localsMu sync.Mutex
+	collector := func() func(x id.Id) {
+		buf := make([]string, 0, sc.Draws)
+		localsMu.Lock()
+		idx := len(locals)
+		locals = append(locals, nil)
+		localsMu.Unlock()
+		return func(x id.Id) {
+			buf = append(buf, x.String())
+			if len(buf) == sc.Draws {
+				localsMu.Lock()
+				locals[idx] = buf
+				localsMu.Unlock()
+			}
+		}
+	}
 	record := func(g string, kind string, x id.Id) {
 		s := x.String()
 		mu.Lock()
@@ -90,6 +110,13 @@ func IdRun(run int, sc IdScenario) IdResult {
 					inner.Add(1)
 					go func() {
 						defer inner.Done()
+						if !sc.Record {
+							put := collector()
+							for d := 0; d < sc.Draws; d++ {
+								put(cur.New())
+							}
+							return
+						}
 						for d := 0; d < sc.Draws; d++ {
 							record(curName, "sno", cur.New())
 						}
@@ -128,6 +155,13 @@ func IdRun(run int, sc IdScenario) IdResult {
 				inner.Add(1)
 				go func() {
 					defer inner.Done()
+					if !sc.Record {
+						put := collector()
+						for d := 0; d < sc.Draws; d++ {
+							put(g.New())
+						}
+						return
+					}
 					for d := 0; d < sc.Draws; d++ {
 						record(name, "fallback", g.New())
 					}
@@ -137,6 +171,15 @@ func IdRun(run int, sc IdScenario) IdResult {
 		}()
 	}
 	wg.Wait()
+	for _, l := range locals {
+		for _, s := range l {
+			res.Draws++
+			if seen[s] && res.Duplicate == "" {
+				res.Duplicate = s
+			}
+			seen[s] = true
+		}
+	}
 	mu.Lock()
 	add(IdRec{Ev: "end"})
 	mu.Unlock()
